@@ -31,7 +31,7 @@ pub struct C03 {
     ctx: Lazy<Context>,
 }
 
-const NFORMS: usize = 14;
+const NFORMS: usize = 16;
 const KILO: i64 = 1000;
 
 fn rat_text(r: &Rat) -> String {
@@ -75,6 +75,9 @@ fn form(f: usize, t: &U, u: &U) -> (String, Rat, Dims) {
             dims_mul(&dims_pow(&t.dims, 2), &u.dims, -1),
         ),
         13 => (format!("{}^1", tn), tv, t.dims.clone()),
+        // zero-valued targets: refused for what they are (not conformable) before the division is tried
+        14 => (format!("0 {}", tn), Rat::zero(), t.dims.clone()),
+        15 => (format!("({} - {})", tn, tn), Rat::zero(), t.dims.clone()),
         _ => (
             format!("(2 {})^2", tn),
             rat(4, 1) * &tv * &tv,
@@ -238,6 +241,9 @@ impl C03 {
                 if sd != td {
                     return Plan::Refuse { q, left: sd, right: td };
                 }
+                if tv.is_zero() {
+                    return Plan::AnyErr { q };
+                }
                 Plan::Exact { q, want: Some(v * sv / tv), fwant: 0.0, back: None }
             }
         }
@@ -321,7 +327,7 @@ impl Space for C03 {
         Meta {
             id: "C03",
             level: "exploration",
-            rule: "(a) every ordered pair (u,t) of registry units/base units with equal dimensionality: `1 u -> t` must be a Conversion with raw*value(t)==value(u) exactly, and `x t -> u` must give 1; (b) every unit x one representative of every other dimensionality: Conformance error whose suggestions carry the reciprocal hint iff the product is dimensionless and otherwise name a factor that (parsed back through the quantity table) makes the sides conformable; (c) prefix x plural spellings of a unit core as targets, judged by an independent name resolver; (d) compound sources x 13 compound target shapes (constants, 1|3, ^2, ^-1, products, quotients, kilo-prefix, inline `foo = 3 t`, sign) over a 12-unit core x rational values. Non-trivial = judged (not skipped); distinct by query text".into(),
+            rule: "(a) every ordered pair (u,t) of registry units/base units with equal dimensionality: `1 u -> t` must be a Conversion with raw*value(t)==value(u) exactly, and `x t -> u` must give 1; (b) every unit x one representative of every other dimensionality: Conformance error whose suggestions carry the reciprocal hint iff the product is dimensionless and otherwise name a factor that (parsed back through the quantity table) makes the sides conformable; (c) prefix x plural spellings of a unit core as targets, judged by an independent name resolver; (d) compound sources x 16 compound target shapes (constants, 1|3, ^2, ^-1, ^1, products, quotients, kilo-prefix, inline `foo = 3 t`, sign, and zero-valued targets `0 t`, `(t - t)`: Conformance error when not conformable, some error when conformable) over a 12-unit core x rational values. Non-trivial = judged (not skipped); distinct by query text".into(),
             assumptions: vec![
                 "unit values come from the registry dump (C08 validates it)".into(),
                 "the single float-valued unit (semitone) is compared to 1e-12 relative".into(),
